@@ -111,6 +111,13 @@ func solveVC(vc *VC, prelude, dir string, timeoutS, seed int, twoSolvers bool) {
 		// clauses recorded as known findings: a short budget is enough to see them pass once repaired
 		timeoutS = 5
 	}
+	if vc.MustFail && timeoutS > 3 {
+		// vacuity covers are satisfiability checks: only a proof of unsat matters
+		timeoutS = 3
+	}
+	if vc.fv.fc != nil && vc.fv.fc.Budget > 0 && vc.fv.fc.Budget < timeoutS {
+		timeoutS = vc.fv.fc.Budget
+	}
 	// stage 1: z3-new alone, short
 	short := 3
 	if timeoutS < short {
